@@ -128,10 +128,13 @@ def callFunction (env : Env) (name : FunctionName) (args : List (List QR)) :
     Outcome (List (Option PV)) :=
   let arg (i : Nat) : Outcome (List QR) :=
     match args[i]? with | some a => .ok a | none => .panic .functionArgIndex
+  -- `args[i].first()`: an argument whose result set is empty is an error like a wrong type (fix in
+  -- eval_context.rs); a missing argument list cannot happen (the parser checks arities)
   let arg0 (i : Nat) : Outcome QR :=
     match args[i]? with
     | some (q :: _) => .ok q
-    | _ => .panic .functionArgIndex
+    | some [] => .err .ParseError
+    | none => .panic .functionArgIndex
   let strArg (i : Nat) : Outcome Str :=
     match arg0 i with
     | .ok (.resolved (.str _ s)) | .ok (.literal (.str _ s)) => .ok s
